@@ -144,12 +144,13 @@ func (t *Teamserver) ListenerGetInfo(Name string) map[string]any {
 func (t *Teamserver) ListenerRemove(Name string) ([]*Listener, []packager.Package) {
 	for i := range t.Listeners {
 		if t.Listeners[i].Name == Name {
+			var listener = t.Listeners[i]
 
 			switch t.Listeners[i].Config.(type) {
 			case *handlers.HTTP:
-				err := t.Listeners[i].Config.(*handlers.HTTP).Stop()
+				err := listener.Config.(*handlers.HTTP).Stop()
 				if err != nil {
-					var pk = events.Listener.ListenerError("", t.Listeners[i].Name, err)
+					var pk = events.Listener.ListenerError("", Name, err)
 
 					t.EventAppend(pk)
 					t.EventBroadcast("", pk)
@@ -157,6 +158,20 @@ func (t *Teamserver) ListenerRemove(Name string) ([]*Listener, []packager.Packag
 
 			case *handlers.External:
 				t.EndpointRemove(t.Listeners[i].Config.(*handlers.External).Config.Endpoint)
+			}
+
+			// stopping a HTTP listener takes seconds and other operators are served in the
+			// meantime: look the listener up again instead of trusting the index from before
+			i = -1
+			for j := range t.Listeners {
+				if t.Listeners[j] == listener {
+					i = j
+					break
+				}
+			}
+			if i < 0 {
+				// a second removal of the same listener finished while we were waiting
+				return t.Listeners, t.EventsList
 			}
 
 			// remove the listener from our database
